@@ -1,5 +1,5 @@
 (* Entry points for the extracted OCaml driver. *)
-From MLPE Require Export Engine.Run.
+From MLPE Require Export Engine.Run Spec.Fragments.
 
 Record result := {
   r_main : option (tstate frame);
@@ -34,3 +34,13 @@ Definition run_case (P : prog) (sched : list action) : result :=
      r_fuel := out_of_fuel st |}.
 
 Definition built_of (ds : decls) : built := build ds 0 (Nat.pred (length ds)).
+
+Definition eval_case (ds : decls) (bs : list nbeh) (input : kwargs) : res * list exec_rec :=
+  let '(st, r) := eval_output ds (dsl_body bs) input 0 (Nat.pred (length ds)) in
+  (r, rev (e_log st)).
+
+Definition frag_flags (ds : decls) : list bool :=
+  [ frag_Plain ds; frag_Sw ds; frag_OneOfX ds; frag_RecWN ds; wf_basic ds;
+    dup_source ds; odd_switch ds; shared_candidate ds; switch_in_candidate ds; rec_conflict ds; rec_bad_start ds;
+    rec_outside_reader ds; rec_nonplain_inside ds; rec_overlap ds; rec_in_scope ds; rec_dest_is_output ds;
+    has_switch ds; has_oneof ds; has_rec ds ].
